@@ -38,6 +38,25 @@ fn canon(v: Value) -> Value {
     }
 }
 
+/// Raw payload bytes of a value, taken through accessors (independent of any Serialize impl):
+/// the register value, or every hash field with its value.
+fn raw_of(v: &ReplicatedValue) -> Value {
+    match &v.crdt {
+        CrdtValue::Lww(l) => json!({"lww": l.get().map(|s| s.as_bytes().to_vec()), "tomb": l.tombstone}),
+        CrdtValue::Hash(h) => {
+            let mut fs: Vec<(&String, Option<Vec<u8>>, bool)> = h.iter().map(|(f, l)| (f, l.get().map(|s| s.as_bytes().to_vec()), l.tombstone)).collect();
+            fs.sort_by(|a, b| a.0.cmp(b.0));
+            json!({"hash": fs.iter().map(|(f, v, t)| json!([f.as_bytes(), v, t])).collect::<Vec<_>>()})
+        }
+        _ => json!(null),
+    }
+}
+
+/// Structural image of a delta: every field through serde plus the raw payload bytes.
+fn dv(d: &ReplicationDelta) -> Value {
+    json!({"serde": jv(d), "raw": raw_of(&d.value), "key": d.key.as_bytes()})
+}
+
 fn kind_of(v: &ReplicatedValue) -> &'static str {
     match &v.crdt {
         CrdtValue::Lww(l) => {
@@ -68,7 +87,7 @@ fn through(delta: &ReplicationDelta) -> Vec<(&'static str, Result<Value, String>
         if d.timestamp != e.timestamp {
             return Err("stamp changed".into());
         }
-        Ok(jv(&d.to_delta().map_err(|e| format!("{e:?}"))?))
+        Ok(dv(&d.to_delta().map_err(|e| format!("{e:?}"))?))
     }).unwrap_or_else(|p| Err(format!("panic: {p}")))));
     out.push(("segment", catch(|| -> Result<Value, String> {
         let mut w = SegmentWriter::new(Compression::None);
@@ -80,7 +99,7 @@ fn through(delta: &ReplicationDelta) -> Vec<(&'static str, Result<Value, String>
         if ds.len() != 1 {
             return Err(format!("{} records", ds.len()));
         }
-        Ok(jv(&ds[0]))
+        Ok(dv(&ds[0]))
     }).unwrap_or_else(|p| Err(format!("panic: {p}")))));
     out.push(("checkpoint", catch(|| -> Result<Value, String> {
         let mut st = HashMap::new();
@@ -93,7 +112,7 @@ fn through(delta: &ReplicationDelta) -> Vec<(&'static str, Result<Value, String>
             return Err("checkpoint metadata changed".into());
         }
         let v = data.state.get(&delta.key).ok_or("key missing after load")?;
-        Ok(jv(&ReplicationDelta::new(delta.key.clone(), v.clone(), delta.source_replica)))
+        Ok(dv(&ReplicationDelta::new(delta.key.clone(), v.clone(), delta.source_replica)))
     }).unwrap_or_else(|p| Err(format!("panic: {p}")))));
     out.push(("gossip", catch(|| -> Result<Value, String> {
         let m = GossipMessage::new_delta_batch(delta.source_replica, vec![delta.clone()], 3);
@@ -104,14 +123,14 @@ fn through(delta: &ReplicationDelta) -> Vec<(&'static str, Result<Value, String>
         if ds.len() != 1 || src != delta.source_replica {
             return Err("message envelope changed".into());
         }
-        Ok(jv(&ds[0]))
+        Ok(dv(&ds[0]))
     }).unwrap_or_else(|p| Err(format!("panic: {p}")))));
     out
 }
 
 fn rt_case(out: &mut Out, origin: &str, delta: &ReplicationDelta) {
     let run = out.n + 1;
-    let want = jv(delta);
+    let want = dv(delta);
     let res: Vec<Value> = through(delta)
         .into_iter()
         .map(|(c, r)| match r {
@@ -122,7 +141,7 @@ fn rt_case(out: &mut Out, origin: &str, delta: &ReplicationDelta) {
     let size = bincode::serialized_size(delta).unwrap_or(0);
     let mut rec = json!({"t": "rt", "run": run, "origin": origin, "kind": kind_of(&delta.value), "key": delta.key, "bytes": size, "res": res});
     if size < 600 {
-        rec["value"] = want;
+        rec["value"] = want["serde"].clone();
     }
     out.emit(&rec);
 }
